@@ -19,6 +19,10 @@ build() { # build <bin>
 case "${1:-}" in
   setup)
     (cd "$H" && cargo build --release --offline 2>&1 | tail -3) || exit 2
+    # warm the per-feature-set build cache used by C20 (failures here are verdicts of C20, not of setup)
+    for f in "" "--no-default-features --features std" "--no-default-features --features std,approx" "--no-default-features --features std,serde" "--all-features"; do
+      CARGO_TARGET_DIR="$CARGO_TARGET_DIR/features" cargo build --lib --offline --manifest-path /repo/Cargo.toml $f >/dev/null 2>&1 || true
+    done
     exit 0 ;;
   replay)
     f="${2:?replay needs a file}"
